@@ -100,7 +100,7 @@ def _kind(p):
 
 def run(ctx):
     if ctx.tier == "quick":
-        plan = [(["T:3"], [2, 2], {}), (["T:3"], [1, 1], {"method": "disk"}), (["T:3"], [2], {"extra": 1}), (["T:d3", "T:a3"], [2], {})] + [(s, t, {}) for s, t in explore.extra_stages("full")]
+        plan = [(["T:3"], [2, 2], {}), (["T:3"], [1, 1], {"method": "disk"}), (["T:3"], [2], {"extra": 1}), (["T:d3", "T:a3"], [2], {})] + [(s, t, {}) for s, t in explore.extra_stages("t3")]
     else:
         plan = [(["T:3"], [2, 2], {}), (["T:m0,5,5,9", "T:1", "T:u4"], [2, 2], {}), (["T:3"], [2, 2], {"method": "disk"}), (["T:3"], [1, 1, 1], {}), (["T:3"], [2, 1], {"extra": 1})]
     ctx.rule = ("E1 BFS over programs; for every program the graph of the unoptimised lowering and of every optimiser stage "
